@@ -351,6 +351,9 @@ PY_DURATIONS = [   # text -> (years, months, microseconds of the rest) | None = 
     ("P1DT1.25S", (0, 0, 86400 * 10**6 + 1250000)), ("PT36H", (0, 0, 36 * 3600 * 10**6)), ("P0D", (0, 0, 0)), ("PT0S", (0, 0, 0)), ("P10Y", (10, 0, 0)),
     ("P1M", (0, 1, 0)), ("PT1M", (0, 0, 60 * 10**6)), ("P1Y1D", (1, 0, 86400 * 10**6)), ("P3DT0.25H", (0, 0, 3 * 86400 * 10**6 + 900 * 10**6)),
     ("PT2H30M", (0, 0, 9000 * 10**6)), ("P1Y2M", (1, 2, 0)), ("PT10.123456S", (0, 0, 10123456)), ("P0.25D", (0, 0, 6 * 3600 * 10**6)),
+    ("PT1.1234567S", (0, 0, 1123457)), ("PT0.99999951S", (0, 0, 1000000)), ("PT0.0000004S", (0, 0, 0)), ("PT2.123456789S", (0, 0, 2123457)),
+    ("P0.33W", (0, 0, 199584 * 10**6)), ("P1.25W", (0, 0, (8 * 86400 + 18 * 3600) * 10**6)), ("P0.3D", (0, 0, 25920 * 10**6)), ("PT0.1H", (0, 0, 360 * 10**6)),
+    ("PT0.25M", (0, 0, 15 * 10**6)), ("P2DT0.1S", (0, 0, 2 * 86400 * 10**6 + 100000)),
     ("P1.5Y", None), ("P1,5Y", None), ("P1.5M", None), ("P1Y1,5M", None), ("PT1.5H30M", None), ("PT1,5H30M", None), ("P1.5DT1H", None), ("PT1.5M1S", None),
     ("P1W1D", None), ("P1WT1H", None), ("PT1M1H", None), ("P1D1Y", None), ("P1S", None), ("1D", None), ("PT1H1H", None),
 ]
@@ -403,6 +406,8 @@ def _py_duration_tabulate(ctx) -> None:
         return
     ctx.ob("PYDUR.tabulated", "_parse_iso8601_duration", not bad, f"{n} duration strings: " + ("; ".join(bad[:3]) if bad else
            "every accepted string yields its exact value, every malformed one is refused"), m.loc(fn))
+    if not bad:
+        ctx.established(("FRACTION-SCALE", "FRACTION.last-only", "FRACTION.ym", "FRACTION.round", "WEEKS.exclusive", "FRACTION"), "py:", "PYDUR.tabulated")
 
 
 def _rust_fraction_radix(ctx) -> None:
@@ -606,10 +611,10 @@ def _interval_attrs(ctx, m, fn) -> None:
 
 def run(ctx) -> None:
     ctx.explanation = EXPLANATION
+    ctx.step(_py_duration_tabulate, ctx)
     ctx.step(_fraction_scale, ctx)
     ctx.step(_rust_arith, ctx)
     ctx.step(_rust_fraction_radix, ctx)
-    ctx.step(_py_duration_tabulate, ctx)
     ctx.step(_rust_round_last, ctx)
     ctx.step(_rust_order_guards, ctx)
     ctx.step(_interval_assembly, ctx)
